@@ -568,3 +568,61 @@ func ZZ_C03_lookup_fault() {
 		zz.Cover("fault:refused-afterwards", true)
 	}
 }
+
+// ZZ_C03_reconfigured: the PKCE policy (enforce, enforce for public clients, plain allowed) is CHANGED between
+// two authorization requests on one provider. The second request - and the redemption of its code - is judged
+// by the policy in force when it is made: nothing of the first request's policy is remembered.
+func ZZ_C03_reconfigured() {
+	wd := world.New(world.Options{})
+	set := func(enforce, plain bool) {
+		wd.Cfg.EnforcePKCE, wd.Cfg.EnablePKCEPlainChallengeMethod = enforce, plain
+	}
+	challenge := func(kind int) url.Values {
+		switch kind {
+		case 1:
+			return url.Values{"code_challenge": {s256(v0)}, "code_challenge_method": {"S256"}}
+		case 2:
+			return url.Values{"code_challenge": {v0}, "code_challenge_method": {"plain"}}
+		}
+		return nil
+	}
+	e1, p1 := zz.Bool("first.enforce"), zz.Bool("first.plain")
+	set(e1, p1)
+	k1 := zz.Choice("first.challenge", 3)
+	code1, _, err1 := wd.AuthorizeCode("c1", []string{"offline", "photos"}, challenge(k1))
+	if err1 == nil && code1 != "" && zz.Choice("first.redeemed", 2) == 1 {
+		tf := url.Values{"grant_type": {"authorization_code"}, "code": {code1}, "redirect_uri": {"https://c1.example/cb"}}
+		if k1 != 0 {
+			tf.Set("code_verifier", v0)
+		}
+		_, err := wd.TokenAs("c1", world.Secret1, tf)
+		zz.Assert(err == nil, "reconfigured: the first request's code is redeemed under the policy it was issued under")
+	}
+	e2, p2 := zz.Bool("second.enforce"), zz.Bool("second.plain")
+	set(e2, p2)
+	k2 := zz.Choice("second.challenge", 3)
+	code2, _, err2 := wd.AuthorizeCode("c1", []string{"offline", "photos"}, challenge(k2))
+	zz.Observe("second.err", world.ErrName(err2))
+	wantRefused := zz.Or(zz.And(e2, k2 == 0), zz.And(zz.Not(p2), k2 == 2))
+	if err2 != nil {
+		zz.Cover("reconfigured:second-refused", true)
+		zz.Assert(wantRefused, "reconfigured: a request that satisfies the policy in force NOW is accepted")
+		return
+	}
+	zz.Cover("reconfigured:second-accepted", true)
+	zz.Assert(zz.Not(wantRefused), "reconfigured: a request without challenge under enforcement, or with a plain challenge while plain is disabled, is refused by the policy in force NOW")
+	// redemption: a bound code needs its verifier, an unbound one none
+	send := []string{"", v0, vOther}[zz.Choice("verifier", 3)]
+	tf := url.Values{"grant_type": {"authorization_code"}, "code": {code2}, "redirect_uri": {"https://c1.example/cb"}}
+	if send != "" {
+		tf.Set("code_verifier", send)
+	}
+	_, err := wd.TokenAs("c1", world.Secret1, tf)
+	if err == nil {
+		if k2 != 0 {
+			zz.Assert(send == v0, "reconfigured: a bound code is redeemed only with its verifier")
+		}
+	} else if k2 != 0 {
+		zz.Assert(send != v0, "reconfigured: the right verifier redeems the bound code")
+	}
+}
